@@ -1667,6 +1667,14 @@ class QasmVisitor:
         aliased_reg_name: str = ""
         aliased_reg_size: int = 0
 
+        if len(self._function_qreg_size_map) > 0:
+            # the alias map is global and resolved against the global registers, which a
+            # subroutine body cannot see (and its formal qubits are not registers)
+            raise_qasm3_error(
+                f"Alias '{alias_reg_name}' is not supported inside a subroutine body",
+                span=statement.span,
+            )
+
         # this will only build a global alias map
 
         # whenever we are referring to qubits , we will first check in the global map of registers
